@@ -146,6 +146,13 @@ def grammar_script(rng):
     L = ["house h"]
     if rng.random() < 0.5:
         L.append("  init %s with %s" % (rng.choice([".x", "x.y", ".x.", "x..y", "x"]), rng.choice(["1", "to", "a 1 b", "value 1 b 2", '"s"', "1j"])))
+    if rng.random() < 0.3:
+        # transfers between shares with explicit field lists: fields renamed, missing in the source, unequal counts
+        F = lambda: " ".join(rng.sample(["f", "g", "h", "value", "k"], rng.choice([1, 1, 2, 3])))
+        L.append("  init %s with %s" % (rng.choice([".c.d", ".a.b", ".e"]), rng.choice(["h 1", "value 3", "g 1 h 2", "5", "f 1 g 2 k 3"])))
+        for _ in range(rng.randint(1, 2)):
+            L.append("  init %s%s from %s%s" % (rng.choice(["", F() + " in "]), rng.choice([".a.b", ".c.d", ".e", ".zz"]),
+                                              rng.choice(["", F() + " in "]), rng.choice([".c.d", ".a.b", ".e", ".zz"])))
     nfr = rng.randint(1, 3)
     fnames = ["m%d" % i for i in range(nfr)]
     if rng.random() < 0.25:
@@ -194,6 +201,11 @@ def grammar_script(rng):
                     L.append("      bid %s %s" % (rng.choice(["stop", "start", "abort", "bogus"]), rng.choice(fnames + ["zz", "all", "me"])))
                 elif k < 0.92:
                     L.append("      %s %s" % (rng.choice(["ready", "start", "stop", "run", "abort"]), rng.choice(fnames + ["zz"])))
+                elif k < 0.94:
+                    F = lambda: " ".join(rng.sample(["f", "g", "h", "value", "k"], rng.choice([1, 1, 2, 3])))
+                    src, dst = rng.choice([".c.d", ".a.b", ".e", ".zz", "q of me"]), rng.choice([".a.b", ".c.d", ".e", ".zz", "q of frame"])
+                    L.append("      " + rng.choice(["copy %s%s into %s%s", "set %s%s from %s%s", "inc %s%s from %s%s"]) % (
+                        rng.choice(["", F() + " in "]), src, rng.choice(["", F() + " in "]), dst))
                 elif k < 0.96:
                     L.append("      " + deed_line(rng))
                 else:
